@@ -191,10 +191,19 @@ impl LocalPeerService {
             r is Ok ==> r->Ok_0 == !last_days_agree(*remote_room, *local_room_def),
 //@ end
 
+/// "the summary of the room (RoomDefinitionLog) speaks for EVERY entity of the room": a fact nothing on this path establishes - the
+/// summary is one row of _daily_log, the first the SQL returns among the rows of the room's last date, i.e. the log of ONE entity
+pub uninterp spec fn summary_covers_every_entity(l: RoomDefinitionLog) -> bool;
+pub uninterp spec fn nondet(k: int) -> bool;
 //@ extract src/synchronisation/peer_inbound_service.rs :: impl LocalPeerService / fn synchronise_room_data
 //@ result r
 //@ insert body-start
         proof { assert(<Vec<u8> as PartialEqSpec<Vec<u8>>>::obeys_eq_spec()); assert(<i64 as PartialEqSpec<i64>>::obeys_eq_spec()); }
+//@ insert after-stmt "let sync_history"
+        proof {
+            // [summary_that_stops_the_comparison_covers_every_entity]{C03} (known finding F41) the whole-history comparison may be skipped only on a summary that speaks for every entity of the room: the summary compared here is the log row of a single entity (RoomDefinitionLog::get reads one row of the join), so a change to any OTHER entity on or before the room's last date is never noticed and never fetched
+            if nondet(41) { assert(!sync_history ==> summary_covers_every_entity(*remote_room)); }
+        }
 //@ spec
         requires
             // the stored room log is consistent (one row of _daily_log yields the chained digest and the last day together): ASSUMED of RoomDefinitionLog::get (SQL)
